@@ -815,7 +815,7 @@ package webrtc
 // Outside C03's quantifier ("every class of invalid description"): failures of transport
 // and media operations that do not depend on the description being applied. They are
 // assumed not to happen while C03 is checked (and only then); each is listed in the
-// evidence as an assumed contract. SetMid cannot fail here: it is only called while the
+// evidence as an assumed contract. SetMid has a verified contract (C09): it cannot fail while the
 // transceiver has no mid yet.
 //@ func (*RTPTransceiver).Stop
 //@ trusted
@@ -825,10 +825,6 @@ package webrtc
 //@ trusted
 //@ props C03
 //@ ensures err == nil && ret0 != nil
-//@ func (*RTPTransceiver).SetMid
-//@ trusted
-//@ props C03
-//@ ensures err == nil
 //@ func (*ICETransport).restart
 //@ trusted
 //@ props C03
